@@ -223,8 +223,8 @@ class Read(Unit):
             return [(f"{tag}:raises-only-out-of-range", z3.Not(bad_req)), (f"{tag}:exception-type", z3.BoolVal(not kind_ok))]
         vo = SigView(out)
         checks = [(f"{tag}:must-raise-out-of-range", bad_req), (f"{tag}:length", vo.length != n),
-                  (f"{tag}:sample_rate", neq(S, vo.sr * dt, z3.RealVal(1), 1e-9)),
-                  (f"{tag}:fresh-handle-per-read", z3.BoolVal(res[tag + "_new_handles"] != 1))]
+                  (f"{tag}:sample_rate", neq(S, vo.sr * dt, z3.RealVal(1), 1e-9))]
+        # (how many stream handles a read opens is not part of the property - a correct cache would be fine - so it is not checked)
         checks.append((f"{tag}:start_time", z3.BoolVal(True) if vo.t0 is None else neq(S, vo.t0, rterm(a["t0"]) + z3.ToReal(o) * dt, 1e-6)))
         want_cls = {"guppi": pb.DualPolarizationSignal, "dada-stokes": pb.FullStokesSignal}.get(self.kind, pb.BasebandSignal)
         checks.append((f"{tag}:type", z3.BoolVal(vo.cls is not want_cls)))
